@@ -243,3 +243,91 @@ def vacuous_loops(facts, fams=None):
     ok = len(st) == 2 and lhs_name(st[0]["e"]["l"]) == "L1" and txt(st[1]["init"]["vars"][0]["init"]) == "a"
     out.append(ob("lint.vacuous-loop", "control:positive", "", "discharged" if ok else "unrecognised", "positive control shapes recognised" if ok else "positive control not recognised", ""))
     return out
+
+
+def stale_aliases(facts, fams=None):
+    """`T* alias = cast(p); ... p = replacement(); [release old object] ... alias->use()`: a local pointer derived from another
+    pointer variable that is re-assigned later in the same block (also under a condition) no longer designates the current
+    object - and when the old object is released on that path the uses of the alias are use-after-free.  Every use of the alias
+    after such a re-assignment of its origin is reported unless the alias itself is re-derived in between."""
+    from astu import stmts_of, strip_all, local_decls
+    fns = functions_by(facts)
+    out = []
+    n_alias = 0
+
+    def blocks(n, acc):
+        if isinstance(n, dict):
+            if n.get("k") == "Block":
+                acc.append(n)
+            for v in n.values():
+                blocks(v, acc)
+        elif isinstance(n, list):
+            for v in n:
+                blocks(v, acc)
+        return acc
+
+    def origin(e):
+        """variable a pointer initialiser is derived from (through casts only)"""
+        e = strip_all(e)
+        while e.get("k") in ("Cast",) and e.get("e") is not None:
+            e = strip_all(e["e"])
+        if e.get("k") == "Ref" and (e.get("t") or "").rstrip().endswith("*") and e.get("dk") in ("local", "param"):
+            return e["d"], e["n"]
+        return None
+    for pat, fn in sorted(fns.items()):
+        if fams and not any(pat.startswith(f) for f in fams):
+            continue
+        idx = 0
+        for b in blocks(fn.get("body"), []):
+            st = stmts_of(b)
+            aliases = {}  # alias decl id -> (origin decl id, names, index)
+            for i, s in enumerate(st):
+                # uses of stale aliases in this statement
+                if aliases:
+                    def uses(n, acc):
+                        walk(n, lambda x: acc.append(x) if x.get("k") == "Ref" and x.get("d") in aliases and aliases[x["d"]].get("stale") else None)
+                        return acc
+                    # re-derivation of the alias first
+                    if s.get("k") == "Expr":
+                        e = strip_all(s["e"])
+                        if e.get("k") == "Assign" and e.get("op") == "=" and strip_all(e["l"]).get("k") == "Ref" and strip_all(e["l"]).get("d") in aliases:
+                            aliases[strip_all(e["l"])["d"]]["stale"] = None
+                    u = uses(s, [])
+                    if u and not aliases[u[0]["d"]].get("released"):
+                        # the old object is still alive here (the swap idiom: use the old gadget, release it afterwards)
+                        u = []
+                    if u:
+                        a = aliases[u[0]["d"]]
+                        out.append(ob("lint.stale-alias", "%s:stale-alias#%d" % (short(fn["patq"]), idx), u[0]["loc"], "violated", "`%s` was derived from `%s`, which %s re-assigns, and the replaced object is released before this use: `%s` still refers to the object `%s` pointed to before (use after free; the new object never receives the operation)" % (u[0]["n"], a["oname"], a["stale"], u[0]["n"], a["oname"]), fn["qname"]))
+                        idx += 1
+                        aliases[u[0]["d"]]["stale"] = None  # one report per alias
+                if s.get("k") == "Decl":
+                    for v in s.get("vars", []):
+                        if (v.get("t") or "").rstrip().endswith("*") and v.get("init") is not None and not v.get("ref"):
+                            o = origin(v["init"])
+                            if o:
+                                aliases[v["d"]] = {"o": o[0], "oname": o[1], "stale": None}
+                                n_alias += 1
+                # a release of anything after the origin was re-assigned makes the stale alias dangling
+                if aliases and any(a.get("stale") for a in aliases.values()):
+                    rel = []
+                    walk(s, lambda y: rel.append(y) if y.get("k") in ("Call", "OpCall") and ("get_deleter" in txt(y) or (y.get("cname") or "") in ("deallocate", "destroy")) else None)
+                    if rel:
+                        for a in aliases.values():
+                            if a.get("stale"):
+                                a["released"] = True
+                # re-assignments of an origin inside this statement (any depth: conditional replacement counts)
+                if aliases:
+                    def av(x):
+                        if x.get("k") == "Assign" and x.get("op") == "=":
+                            l = strip_all(x["l"])
+                            if l.get("k") == "Ref":
+                                for a in aliases.values():
+                                    if a["o"] == l.get("d"):
+                                        a["stale"] = "the statement at %s" % x["loc"].split("/")[-1]
+                                        rel = []
+                                        walk(s, lambda y: rel.append(y) if y.get("k") in ("Call", "OpCall") and ("get_deleter" in txt(y) or (y.get("cname") or "") in ("deallocate", "destroy")) else None)
+                                        a["released"] = bool(rel)
+                    walk(s, av)
+    out.append(ob("lint.stale-alias", "all:aliases-scanned", "", "discharged", "%d local pointer aliases scanned" % n_alias, ""))
+    return out
